@@ -125,7 +125,11 @@ func VerifGenResponseHeaders() {
 	if n > 1 {
 		tags = append(tags, t1)
 	}
-	srv := sops.NewOpAOK().WithXRate(rate).WithXName(name).WithXFlag(flag).WithXTags(tags)
+	// headers that declare a default: the zero value is a value like any other
+	remaining := []int32{0, 100, 5}[vChoice("X-Remaining", 3)]
+	cache := vBool("X-Cache")
+	ratio := []float64{0, 0.5, 2}[vChoice("X-Ratio", 3)]
+	srv := sops.NewOpAOK().WithXRate(rate).WithXName(name).WithXFlag(flag).WithXTags(tags).WithXRemaining(remaining).WithXCache(cache).WithXRatio(ratio)
 	rec := &vRecorder{h: http.Header{}}
 	srv.WriteResponse(rec, vNoProducer)
 	vAssert(rec.code == 200, "the responder of the 200 response writes another status")
@@ -140,6 +144,9 @@ func VerifGenResponseHeaders() {
 	vAssert(ok.XRate == rate, "an integer header does not come back with the value the handler set")
 	vAssert(ok.XName == name, "a string header does not come back with the value the handler set")
 	vAssert(ok.XFlag == flag, "a boolean header does not come back with the value the handler set")
+	vAssert(ok.XRemaining == remaining, "an integer header with a default does not come back with the value the handler set")
+	vAssert(ok.XCache == cache, "a boolean header with a default does not come back with the value the handler set")
+	vAssert(ok.XRatio == ratio, "a number header with a default does not come back with the value the handler set")
 	vAssert(len(ok.XTags) == n, "an array header comes back with a different number of items")
 	if n > 0 && len(ok.XTags) > 0 {
 		vAssert(ok.XTags[0] == t0, "an item of an array header comes back changed")
